@@ -4,6 +4,7 @@
   such runs whose answers are what an honest world gives: the store returns what was stored (C12), the provider is
   standards-compliant (`CompliantAnswer`), the key source works.
 -/
+import AuthProofs.CodeEquivOidc
 import AuthProofs.StateInventory
 import AuthProofs.Login
 import AuthProofs.Cookie
@@ -77,6 +78,19 @@ example : isBearer (B "Bearer") = true ∧ isBearer (B "bearer") = true ∧ isBe
 /-- NO HIDDEN STATE: the model treats a check as a function of (configuration, request, store answers, clock, IdP and key-source answers, entropy); that is a faithful reading of the code only if nothing else survives from one check to the next. Regenerated on every run: every package-level variable and struct field of internal/server, internal/authz, internal/http, internal/oidc is the classified expectation, and handlers, filter, HTTP helpers and the Redis store own no mutable state (no verdict cache, handler cache, object pool, single-flight group or per-process copy of session data). -/
 theorem no_hidden_state : CheckPathInventory := check_path_inventory
 
+/-- ON THE CODE AS TRANSLATED FROM /repo: the session cookie the service sets on the login redirect
+    (`generateSetCookieHeader` with the negative timeout) starts with `name=sid;`, and a browser that sends `name=sid` back
+    is recognised: `getSessionIDFromCookie` (with `DecodeCookiesHeader`) returns exactly that session id. Without this a
+    login could never complete - the callback would look like a first visit. -/
+theorem code_cookie_read_back (env : Go.Env) (c : Pb.OIDCConfig) (cfg : Cfg) (sid : Str)
+    (h : cfg.cookiePrefix = c.GetCookieNamePrefix) (hp : ∀ b ∈ cfg.cookiePrefix, tokByte b = true)
+    (hsid : ∀ b ∈ sid, tokByte b = true) :
+    Code.getSessionIDFromCookie env [(B "cookie", cookieName cfg ++ [61] ++ sid)] c = .ok sid := by
+  have h1 := code_sessionIdFromCookie env [(B "cookie", cookieName cfg ++ [61] ++ sid)] c cfg h
+  have h2 : Go.Map.get [(B "cookie", cookieName cfg ++ [61] ++ sid)] (B "cookie") = cookieName cfg ++ [61] ++ sid := by
+    simp [Go.Map.get, List.find?]
+  rw [h1, h2, cookie_read_back cfg sid hp hsid]
+
 end AuthProps.C03
 
 #print axioms AuthProps.C03.login_completes
@@ -84,3 +98,4 @@ end AuthProps.C03
 #print axioms AuthProps.C03.no_expires_in_no_expiry
 #print axioms AuthProps.C03.cookie_read_back
 #print axioms AuthProps.C03.no_hidden_state
+#print axioms AuthProps.C03.code_cookie_read_back
